@@ -122,7 +122,7 @@ package domain
 //@   modifies nothing
 //@ func (idx *index) get(i int) (p pointer, ok bool)
 //@   ensures ok == (0 <= i && i < len(idx.mu.pointers))
-//@   ensures ok ==> p == idx.mu.pointers[i]
+//@   ensures ok ==> p == idx.mu.pointers[i] && i < 4611686018427387904
 //@   modifies nothing
 //@ func (idx *index) getGE(ctx context.Context, ts telem.TimeStamp) (ptr pointer, ok bool)
 //@   requires WF(idx.mu.pointers) && ts >= 0
@@ -144,7 +144,7 @@ package domain
 //@ spec func SpecIterDomainAt(i *Iterator, k int) telem.TimeRange = i.idx.mu.pointers[k].TimeRange
 //@ spec func SpecIterWF(i *Iterator) bool = i.idx != nil && WF(i.idx.mu.pointers) && validTR(i.Bounds)
 //@ # a valid iterator sits on a domain of the index that overlaps its bounds
-//@ spec func SpecIterOK(i *Iterator) bool = i.valid ==> 0 <= i.position && i.position < len(i.idx.mu.pointers) && i.currPtr == i.idx.mu.pointers[i.position] && telem.SpecOvl(i.currPtr.TimeRange, i.Bounds)
+//@ spec func SpecIterOK(i *Iterator) bool = i.valid ==> 0 <= i.position && i.position < len(i.idx.mu.pointers) && i.position < 4611686018427387904 && i.currPtr == i.idx.mu.pointers[i.position] && telem.SpecOvl(i.currPtr.TimeRange, i.Bounds)
 
 //@ func (i *Iterator) reload() (ok bool)
 //@   requires SpecIterWF(i) && -1 <= i.position && i.valid
@@ -155,7 +155,7 @@ package domain
 //@   modifies &i.valid, &i.currPtr
 //@ # Next moves to the following domain if it exists and overlaps the bounds, otherwise stays where it was (and becomes invalid)
 //@ func (i *Iterator) Next() (ok bool)
-//@   requires SpecIterWF(i) && SpecIterOK(i) && i.position < 4611686018427387904
+//@   requires SpecIterWF(i) && SpecIterOK(i)
 //@   ensures  SpecIterOK(i) && ok == i.valid
 //@   ensures  ok ==> i.position == old(i.position)+1
 //@   ensures  !ok ==> i.position == old(i.position) && i.currPtr == old(i.currPtr)
